@@ -212,8 +212,90 @@ def strategy():
     return case()
 
 
+def judge_content_header(case):
+    """A metadata / preamble / diff header with generated extra options:
+    the options reported are exactly the pairs written, nothing added."""
+    ns = sut.load()
+    kind, pairs, where = case['kind'], case['pairs'], case['where']
+    content = {'meta': b'{}\n', 'preamble': b'p\n', 'diff': b'd\n'}[kind]
+    sid = {'meta': '.meta', 'preamble': '.preamble', 'diff': '...diff'}[kind]
+    all_pairs = [list(p) for p in pairs]
+    all_pairs.insert(where % (len(all_pairs) + 1),
+                     ['length', str(len(content))])
+    line = ('#%s: ' % sid + ', '.join('%s=%s' % tuple(p)
+                                      for p in all_pairs)).encode('ascii')
+
+    if kind == 'diff':
+        data = (MAIN + b'#.change:\n#..file:\n#...meta: length=3\n{}\n' +
+                line + b'\n' + content)
+        idx = 4
+    else:
+        data = MAIN + line + b'\n' + content
+        idx = 1
+
+    recs, err = sut.read_records(data, budget=False)
+
+    if err is not None:
+        return ('rejected-valid-header', '%r -> %r' % (line, err))
+
+    want = {}
+
+    for k, v in all_pairs:
+        want.setdefault(k, []).extend(spec.convert_value(v))
+
+    got = recs[idx].get('options')
+
+    if (not isinstance(got, dict) or set(got) != set(want) or
+            not all(any(type(got[k]) is type(x) and got[k] == x
+                        for x in want[k]) for k in want)):
+        return ('wrong-options', '%r -> %r' % (line, got))
+
+    return None
+
+
+def run_content_header(case, st):
+    st.case(case, nontrivial=bool(case['pairs']),
+            classes=['kind-' + case['kind']])
+    res = judge_content_header(case)
+
+    if res is not None:
+        st.violation(res[0], res[1], case)
+
+
+def content_header_strategy():
+    from hypothesis import strategies as hs
+    key = hs.one_of(
+        hs.builds(lambda a, b: a + b, hs.sampled_from('abzAZ'),
+                  hs.text(alphabet='abzAZ09_-', max_size=6)),
+        hs.sampled_from(['version', 'Length', 'x-format', 'mimetypes',
+                         'types', 'indents']))
+    val = hs.one_of(hs.text(alphabet='abzAZ059/._-', min_size=1, max_size=8),
+                    hs.sampled_from(['1', '2', '0', '007', '-1', 'json',
+                                     'utf-8', '1.0', 'x/y']))
+
+    @hs.composite
+    def case(draw):
+        pairs = draw(hs.lists(hs.tuples(key, val), max_size=3,
+                              unique_by=lambda p: p[0]))
+        pairs = [p for p in pairs if p[0] != 'length']
+        return {'kind': draw(hs.sampled_from(['meta', 'meta', 'preamble',
+                                              'diff'])),
+                'pairs': [list(p) for p in pairs],
+                'where': draw(hs.integers(0, 3))}
+
+    return case()
+
+
 def checks():
     return [
+        HypCheck(
+            'content-headers', content_header_strategy, run_content_header,
+            budget={'quick': (8, 150), 'thorough': (16, 5000)},
+            rule='metadata / preamble / diff headers carrying only length '
+                 'plus 0-3 generated unknown options (incl. "version" with '
+                 'integer values): accepted, and the options reported are '
+                 'exactly the pairs written (integers converted), nothing '
+                 'added or renamed; non-trivial = at least one extra pair'),
         EnumCheck(
             'exhaustive', chunks, run_chunk, run_case=run_case,
             rule='line "#.change:" + every tail over the 15-byte alphabet '
